@@ -2618,13 +2618,15 @@ def concatenate(arrays: Sequence[Array], axis: int = 0) -> Array:
     def shape_except_axis(ary: Array) -> ShapeType:
         return ary.shape[:axis] + ary.shape[axis+1:]
 
+    # (an existing axis: 'axis == ndim' is only valid for stack())
+    if not (0 <= axis < arrays[0].ndim):
+        raise ValueError("invalid axis")
+
     for array in arrays[1:]:
-        if shape_except_axis(array) != shape_except_axis(arrays[0]):
+        if (array.ndim != arrays[0].ndim
+                or shape_except_axis(array) != shape_except_axis(arrays[0])):
             raise ValueError("arrays must have the same shape except along"
                     f" dimension #{axis}.")
-
-    if not (0 <= axis <= arrays[0].ndim):
-        raise ValueError("invalid axis")
 
     return Concatenate(tuple(arrays), axis,
                        tags=_get_default_tags(),
